@@ -521,6 +521,10 @@ func (c *Compiler) mapKeyCode(typ *runtime.Type) (Code, error) {
 			return c.ptrCode(typ)
 		}
 	case reflect.String:
+		if typ == runtime.Type2RType(jsonNumberType) {
+			// a member name is a string: a json.Number key is quoted like any other string key
+			return c.stringCode(runtime.Type2RType(reflect.TypeOf("")), false)
+		}
 		return c.stringCode(typ, false)
 	case reflect.Int:
 		return c.intStringCode(typ)
